@@ -253,3 +253,38 @@ func sortInts(a []int) {
 		}
 	}
 }
+
+// TestC08ConcurrentBuilds: independent NewSlimTrie calls running at the same
+// time in different goroutines. Every accepted build must find its own keys;
+// building is a function of its arguments, whatever else is being built.
+// (The schedule is sampled; the race build of C11 runs the same phase under the
+// race detector.)
+func TestC08ConcurrentBuilds(t *testing.T) {
+	st := newStats("C08")
+	defer st.write()
+	rounds := 12
+	if thorough() {
+		rounds = 120
+	}
+	for round := 0; round < rounds; round++ {
+		cases := concurrentBuildCases(round)
+		errs := buildConcurrently(cases)
+		for i, err := range errs {
+			if err != nil {
+				if _, ok := err.(*violation); !ok {
+					t.Fatalf("HARNESS ERROR: %v", err)
+				}
+				c := cases[i]
+				c.Prop = "C08"
+				path := writeReplay("C08", c)
+				fmt.Printf("VIOLATION property=C08 replay=%s\n", path)
+				fmt.Printf("DETAIL property=C08 %d builds running at the same time: %s\n", len(cases), oneLine(err.Error()))
+				t.Fatalf("C08 violated: %v", err)
+			}
+		}
+		st.doneHash(uint64(round), true)
+		st.calls(len(cases))
+	}
+	st.class("concurrent_independent_builds")
+	st.addSample(map[string]interface{}{"gen": "concurrent-builds", "goroutines": 8, "rounds": rounds, "note": "each goroutine builds its own key set (steps of different lengths, all four option levels) and checks Get on every own key"})
+}
